@@ -7,6 +7,7 @@ package obfs4
 // real server on the gated wire.  Driver B: free-running, four goroutines.
 
 import (
+	"encoding/json"
 	"bytes"
 	"fmt"
 	"net"
@@ -23,6 +24,7 @@ import (
 	"gitlab.com/yawning/obfs4.git/internal/verifkit/detrand"
 	"gitlab.com/yawning/obfs4.git/internal/verifkit/drive"
 	"gitlab.com/yawning/obfs4.git/internal/verifkit/ev"
+	"gitlab.com/yawning/obfs4.git/internal/verifkit/refdist"
 	"gitlab.com/yawning/obfs4.git/internal/verifkit/refobfs4"
 	"gitlab.com/yawning/obfs4.git/internal/verifkit/wire"
 	"gitlab.com/yawning/obfs4.git/transports/obfs4/framing"
@@ -610,6 +612,7 @@ func vfC01Case(rt *rapid.T, c *ev.Collector) {
 	if strings.Contains(strings.Join(hist, " "), "(0)") {
 		cls = append(cls, "zero-length-write")
 	}
+	vfCloseTwice(p.Cl.Conn(), p.Sv.Conn())
 	h := append([]string(nil), hist...)
 	c.Case(ev.Hash(strings.Join(hist, ",")), nt, cls, func() any {
 		if len(h) > 60 {
@@ -622,7 +625,7 @@ func vfC01Case(rt *rapid.T, c *ev.Collector) {
 func TestVerifC01Lockstep(t *testing.T) {
 	vfSetup(t)
 	c := ev.For("C01")
-	c.Rule("lockstep: real client and real server (public factories) on a gated in-memory wire; generated bridge (seed incl. tables containing 0, IAT mode, bias, bridge-line form), then up to 40 actions write(side,n)/release(direction, segment plan: 1-byte runs, 2, to a frame/burst/handshake-field boundary -1/0/+1, k, all, exactly one or two read buffers (23168 bytes) -1/0/+1); iat-mode 0 writes occasionally 23168..70000 bytes/reader buffer size, handshake bytes released by the same actions; a Write held at the transport (blocked before the wire looks at its bytes, as on a full socket buffer) while 1-3 segments are released to the same endpoint's reader; an application that stops calling Read for a while (after 0-2 small Reads) and resumes later; oracle after every action at quiescence: bytes obtained are a prefix of what the peer wrote and at least the plaintext of all payload frames completely released; at the end everything is released and both streams must be complete; non-trivial = a multi-frame write, data in both directions, a release ending strictly inside a frame, and (handshake+payload coalesced in one segment or a 1-byte run across a frame header); fingerprint = configuration + action list")
+	c.Rule("lockstep: real client and real server (public factories) on a gated in-memory wire; generated bridge (seed incl. tables containing 0, IAT mode, bias, bridge-line form), then up to 40 actions write(side,n)/release(direction, segment plan: 1-byte runs, 2, to a frame/burst/handshake-field boundary -1/0/+1, k, all, exactly one or two read buffers (23168 bytes) -1/0/+1); iat-mode 0 writes occasionally 23168..70000 bytes/reader buffer size, handshake bytes released by the same actions; a Write held at the transport (blocked before the wire looks at its bytes, as on a full socket buffer) while 1-3 segments are released to the same endpoint's reader; an application that stops calling Read for a while (after 0-2 small Reads) and resumes later; oracle after every action at quiescence: bytes obtained are a prefix of what the peer wrote and at least the plaintext of all payload frames completely released; at the end everything is released and both streams must be complete, then both connections are closed from two goroutines each (as the relay's copiers do), so that whatever Close returns to the process is part of the state the following cases run in; non-trivial = a multi-frame write, data in both directions, a release ending strictly inside a frame, and (handshake+payload coalesced in one segment or a 1-byte run across a frame header); fingerprint = configuration + action list")
 	c.Floor("write-blocked-at-transport-while-reading/lockstep", 0.03)
 	c.Assume("frame layout of a burst (payload frames of <= 1427 bytes first, padding frames after) as stated in the property's mechanism; interleavings explored at action granularity")
 	c.Floor("iat-0/lockstep", 0.15)
@@ -773,6 +776,7 @@ func vfFreeRunningCase(rt *rapid.T, c *ev.Collector) {
 			rt.Fatalf("VIOL[c01-corrupt]: free-running direction %s: stream differs (sizes %v)", wire.Side(d), sizes)
 		}
 	}
+	vfCloseTwice(conns[0], conns[1])
 	cls = append(cls, "free-running")
 	c.Case(ev.Hash(fmt.Sprint(br.Seed, br.IAT, br.Biased, sizes, wseed)), multi[0] && multi[1], cls, func() any {
 		return map[string]any{"driver": "free-running", "iat": br.IAT, "sizes_c2s": sizes[0], "sizes_s2c": sizes[1]}
@@ -781,6 +785,82 @@ func vfFreeRunningCase(rt *rapid.T, c *ev.Collector) {
 
 // FuzzVerifC01Lockstep drives the lock-step property with Go's coverage-guided
 // fuzzer (the byte string is rapid's bit stream), thorough tier only.
+// TestVerifC01ParanoidCorner: in iat-mode 2 every wire write is exactly a
+// sampled length; when the burst is short of a sampled length of >= 1428 by at
+// most one frame header, the sender has to emit the shortest legal packets
+// (header-only, empty payload, no padding).  The corner needs a table value
+// >= 1428 AND a matching write size, which generated sessions almost never
+// combine; here every such pair is enumerated over the stored one-entry tables.
+func TestVerifC01ParanoidCorner(t *testing.T) {
+	vfSetup(t)
+	c := ev.For("C01")
+	c.Rule("paranoid-corner: real client and real server in iat-mode 2 with a one-entry length table {v}, v = 1428..1448 (stored seeds, re-checked against the reference), and one Write of n = v - 21 - d bytes for every shortfall d in 1..21 (burst d bytes short of v; plus d = 0 and 22), in both directions; oracle: the Write returns, the receiver obtains exactly the n bytes and reports no error; distinct by construction; non-trivial = 1448 - v < d <= 21 (the padding needed exceeds one segment)")
+	shard, nshards := ev.IntEnv("VERIF_SHARD", 0), ev.IntEnv("VERIF_NSHARDS", 1)
+	seeds := vfSingleSeeds(t)
+	k := 0
+	for v := 1428; v <= vfSeg; v++ {
+		seed, ok := seeds[v]
+		if !ok {
+			t.Fatalf("INFRA: no stored seed for the table {%d}", v)
+		}
+		if tb := refdist.New(seed, 0, vfSeg, false).Values; len(tb) != 1 || tb[0] != v {
+			t.Fatalf("INFRA: stored seed for {%d} denotes %v", v, tb)
+		}
+		for d := 0; d <= 22; d++ {
+			n := v - 21 - d
+			for dir := 0; dir < 2; dir++ {
+				k++
+				if k%nshards != shard {
+					continue
+				}
+				vfSetBias(false)
+				br := vfBridge{ID: refobfs4.NewIdentity(vfEnt(0xc01c0+uint64(k))(52)), Seed: seed, IAT: iatParanoid}
+				p, err := vfStartPair(br, k%2 == 0, iatParanoid)
+				if err == nil {
+					err = p.vfFinishHandshake()
+				}
+				if err != nil {
+					if p != nil && p.N != nil {
+						p.N.Shutdown()
+					}
+					t.Fatalf("VIOL[c01-handshake-failed]: %v", err)
+				}
+				sender, receiver := p.Cl, p.Sv
+				if dir == 1 {
+					sender, receiver = p.Sv, p.Cl
+				}
+				data := vfCounterStream(byte(dir), 0, n)
+				res, wn, _ := sender.Write(data)
+				if res.Failed() || res.Err != nil || wn != n {
+					p.N.Shutdown()
+					t.Fatalf("VIOL[c01-write-error]: iat-mode 2, table {%d}: Write(%d bytes) = %d, %s", v, n, wn, res)
+				}
+				p.N.ReleaseAll(wire.Side(dir))
+				if err := p.N.WaitQuiescent(wire.A, wire.B); err != nil {
+					p.N.Shutdown()
+					t.Fatalf("VIOL[c01-wedge]: %v", err)
+				}
+				if rerr := receiver.ReadErr(); rerr != nil || !bytes.Equal(receiver.Got(), data) {
+					js, _ := json.Marshal(map[string]any{"v": v, "d": d, "dir": dir})
+					fmt.Printf("VERIF-REPLAY-CASE: %s\n", js)
+					p.N.Shutdown()
+					t.Fatalf("VIOL[c01-read-error]: iat-mode 2, length table {%d}, one Write of %d bytes (the burst is %d bytes short of the sampled length) in direction %s: the receiver obtained %d of %d bytes, Read error %v", v, n, d, wire.Side(dir), receiver.GotLen(), n, rerr)
+				}
+				vfCloseTwice(p.Cl.Conn(), p.Sv.Conn())
+				p.N.Shutdown()
+				c.Bulk(1, 0)
+				cls := "paranoid-corner"
+				if d > vfSeg-v && d <= 21 {
+					cls = "paranoid-corner-padding-exceeds-a-segment"
+					c.Bulk(0, 1)
+				}
+				c.Class(cls, 1)
+			}
+		}
+	}
+	c.Subspace("iat-mode 2, one-entry tables {1428..1448} x shortfall 0..22 x both directions", int64(21*23*2))
+}
+
 func FuzzVerifC01Lockstep(f *testing.F) {
 	vfSetup(f)
 	c := ev.For("C01")
